@@ -465,8 +465,10 @@ def props_of(d):
         core = kind == 'valid' or (fields & (GETTER_FIELDS | {'flags', 'scheme_type'}))
         if e == 'parse' and core:
             ps.add('C01')
-        if e == 'set' and core:
-            ps.add('C03')
+        if e == 'set' and (core or fields & {'host_type', 'valid_domain'}):
+            ps.add('C03')          # the host kind is part of the state the setter must leave behind
+        elif e == 'set' and ev.get('has_ret') and not ev.get({'a': 'ra', 'u': 'ru', 'c': 'rc'}.get(who, 'ra'), True):
+            ps.add('C03')          # "a setter that reports failure leaves EVERY observable unchanged" (offsets, sizes included)
         if e == 'reparse':
             ps.add('C05')
         if e in ('copy', 'observe'):
